@@ -6,6 +6,7 @@ require github.com/apmckinlay/gsuneido v0.0.0
 
 require (
 	golang.org/x/exp v0.0.0-20260611194520-c48552f49976 // indirect
+	golang.org/x/sys v0.47.0 // indirect
 	golang.org/x/text v0.40.0 // indirect
 )
 
